@@ -24,8 +24,11 @@ back to input order and sequence type.
 Nothing is concluded from elapsed time: a "hang" is a tool that waits for a gate
 file which the history never creates (it gives up after 30 s); the wrapper is
 then joined with ``timeout=0.2`` and only the exception type and the resources
-afterwards are looked at.  The only clock use is a bounded wait (<= 10 s) for a
+afterwards are looked at.  The only clock use is a bounded wait (<= 5 s) for a
 SIGKILLed child to disappear from /proc.
+
+A history is interpreted up to its first violation: afterwards model and wrapper
+may have diverged and later verdicts would be meaningless.
 """
 
 import json
@@ -84,7 +87,7 @@ def _is_dead(pid):
     return _proc_state(pid) in (None, "Z", "X")
 
 
-def _wait_dead(pid, limit=10.0):
+def _wait_dead(pid, limit=5.0):
     """Bounded wait: SIGKILL delivery is asynchronous.  True if the pid died."""
     t_end = time.monotonic() + limit
     while True:
@@ -111,6 +114,21 @@ def _wait_exited(pid, limit=25.0):
 
 def _state_name(app_state):
     return app_state.name
+
+
+def _expect_state_error(o, AppStateError, fn, what):
+    """A call the life cycle does not allow must raise AppStateError - nothing else."""
+    try:
+        r = fn()
+    except AppStateError:
+        return
+    except Exception as e:  # noqa: BLE001 - reported as a violation of this very clause
+        o.fail(
+            "call_outside_life_cycle_raises_state_error",
+            f"{what}: raised {type(e).__name__}: {e} instead of AppStateError",
+        )
+        return
+    o.fail("call_outside_life_cycle_raises_state_error", f"{what}: expected AppStateError but got a value {r!r:.200}")
 
 
 def _app_classes():
@@ -245,18 +263,29 @@ BASE_BEHAVIOURS = [
 
 
 def st_base(tier):
-    op = st.one_of(
-        st.sampled_from(BASE_OPS[:5] + [["finish"]]),
-        st.integers(0, 9).map(lambda v: ["set_param", v]),
-    )
+    set_param = st.integers(0, 9).map(lambda v: ["set_param", v])
+    any_op = st.one_of(st.sampled_from(BASE_OPS[:5] + [["finish"], ["start"]]), set_param)
+    before = st.one_of(set_param, st.sampled_from([["get_result"], ["state"], ["cancel"], ["finish"]]))
+    during = st.one_of(set_param, st.sampled_from([["get_result"], ["state"], ["state"], ["finish"], ["finish"], ["start"]]))
     beh = st.fixed_dictionaries(
         {
-            "k": st.one_of(st.none(), st.integers(0, 4)),
+            "k": st.sampled_from([None, None, 0, 1, 2, 4]),
             "run_raises": st.sampled_from([False] * 5 + [True]),
             "evaluate_raises": st.sampled_from([False] * 3 + [True]),
         }
     )
-    return st.fixed_dictionaries({"beh": beh, "ops": st.lists(op, max_size=8)})
+
+    @st.composite
+    def ops(draw):
+        if draw(st.sampled_from([False] * 6 + [True])):
+            return draw(st.lists(any_op, max_size=8))
+        pre = draw(st.lists(before, max_size=2))
+        mid = draw(st.lists(during, max_size=3))
+        end = draw(st.sampled_from([["join"], ["join"], ["cancel"]]))
+        post = draw(st.lists(any_op, max_size=1))
+        return pre + [["start"]] + mid + [end] + post
+
+    return st.fixed_dictionaries({"beh": beh, "ops": ops()})
 
 
 def enum_base(tier):
@@ -293,7 +322,7 @@ def run_base(case):
         nonlocal rejected
         rejected += 1
         before = snapshot()
-        o.expect_raises(AppStateError, fn, "call_outside_life_cycle_raises_state_error", f"{what} in {state}")
+        _expect_state_error(o, AppStateError, fn, f"{what} in {state}")
         o.check_eq(snapshot(), before, "rejected_call_has_no_side_effects", f"{what} in {state}")
 
     def allowed(fn, what):
@@ -374,6 +403,8 @@ def run_base(case):
         o.check(app.runs <= 1, "run_started_at_most_once", f"run() called {app.runs} times")
         if state in TERMINAL or state == "CREATED":
             o.check_eq(_state_name(app.get_app_state()), state, "state_query_follows_life_cycle", f"after op {i} {name}")
+        if o.violations:
+            break  # model and wrapper may have diverged
 
     o.label(f"path={path}", f"end={state}", "rejected" if rejected else "no_rejected")
     o.mark_nontrivial(path in ("timeout", "garbage", "launch_failure", "cancel"))
@@ -496,8 +527,7 @@ class Session:
             else:
                 os.environ[ENV] = self.old_env
             shutil.rmtree(self.dir, ignore_errors=True)
-        if harness_problem:
-            raise RuntimeError(harness_problem)
+        return harness_problem
 
 
 class LocalModel:
@@ -535,9 +565,7 @@ class LocalModel:
     def rejected_call(self, fn, what):
         self.rejected += 1
         before = self.snapshot()
-        self.o.expect_raises(
-            self.AppStateError, fn, "call_outside_life_cycle_raises_state_error", f"{what} in {self.state}"
-        )
+        _expect_state_error(self.o, self.AppStateError, fn, f"{what} in {self.state}")
         after = self.snapshot()
         self.o.check_eq(after, before, "rejected_call_has_no_side_effects", f"{what} in {self.state}")
         if self.state != "RUNNING":
@@ -589,6 +617,12 @@ class LocalModel:
                 self.o.fail("timeout_raises_timeout_error", "join(timeout=0.2) of a hanging tool returned")
             except self.AppTimeoutError:
                 pass
+            except TimeoutError as e:
+                # the documented exception is biotite.application.TimeoutError, which is not a builtin TimeoutError
+                self.o.fail(
+                    "timeout_raises_timeout_error",
+                    f"join(timeout=0.2) raised the builtin {type(e).__name__} instead of biotite.application.TimeoutError",
+                )
             except self.AppStateError as e:
                 self.o.fail("call_allowed_by_life_cycle_succeeds", f"join in {self.state}: {e}")
             self.state, self.path, self.child = "CANCELLED", "timeout", "dead"
@@ -609,9 +643,11 @@ class LocalModel:
             self.o.fail("no_timeout_without_hang", f"join(timeout={timeout}) of a tool that exits at once: {e}")
             self.state = "CANCELLED"
         except subprocess.SubprocessError as e:
-            if expect == "ok":
-                raise
             self.state = "CANCELLED"
+            if expect == "ok":
+                self.o.fail("successful_run_joins", f"join of a run that was meant to succeed raised SubprocessError: {e}")
+                self.child = "dead"
+                return
             self.path = "nonzero_exit" if mode == "exit" else self.hooks["failure_path"]()
             if expect == "subprocess_error":
                 self.o.check(str(self.tool["exit_code"]) in str(e), "exit_code_reported", f"message {e}")
@@ -738,8 +774,8 @@ class LocalModel:
             if self.state in TERMINAL:
                 self.check_terminal(first=not self.terminal_checked, where=f"after op {i} {name}")
                 self.terminal_checked = True
-            if os.getcwd() != self.sess.cwd0:
-                os.chdir(self.sess.cwd0)  # keep later steps meaningful
+            if o.violations:
+                break  # model and wrapper may have diverged
 
     # ---- terminal state
     def check_terminal(self, first, where):
@@ -778,6 +814,8 @@ class LocalModel:
         if proc is not None:
             o.check_eq(s["pid"], proc.pid, "tool_started_once", "pid")
         self.hooks["check_argv"](self, s["argv"][len(self.options) :])
+        if "check_input" in self.hooks and self.path not in ("timeout", "cancel"):
+            self.hooks["check_input"]()
 
     def labels(self):
         o = self.o
@@ -939,7 +977,9 @@ def run_local(case):
         model.labels()
         o.label(f"bin={case['bin']}")
     finally:
-        sess.close()
+        problem = sess.close()
+    if problem:
+        raise RuntimeError(problem)
     return o
 
 
@@ -1238,6 +1278,8 @@ def run_msa(case):
                 ok, val = model.allowed(app.get_distance_matrix, "get_distance_matrix")
                 if ok:
                     check_distmat(val, "get_distance_matrix after join")
+
+        def check_input():
             # what the tool read must be the input sequences (mapped for custom alphabets)
             inputs = [r for r in sess.log() if r.get("phase") == "input"]
             if o.check_eq(len(inputs), 1, "tool_started_once", "input records"):
@@ -1289,6 +1331,7 @@ def run_msa(case):
             "check_command": check_command,
             "check_results": check_results,
             "check_argv": check_argv,
+            "check_input": check_input,
             "op": op,
             "getter": getter,
         }
@@ -1298,7 +1341,11 @@ def run_msa(case):
         if tool["mode"] == "garbage" and model.path == "garbage":
             o.label(f"garbage={tool['garbage']}")
     finally:
-        sess.close()
+        problem = sess.close()
+    # exit code 93 = "the input file does not fit the planned alignment": a harness problem
+    # unless the wrapper handed the wrong sequences to the tool (then it is the violation above)
+    if problem and not any(c == "input_sequences_passed_to_tool" for c, _ in o.violations):
+        raise RuntimeError(problem)
     return o
 
 
